@@ -145,17 +145,7 @@ def fmt_fields(fmt_call, env, prog, fi):
     return [args[int(f) if f else i] for i, f in enumerate(fields)]
 
 
-def fmt_sizes(ctx, fi, unpack_call, env):
-    """field sizes of struct.unpack('>{0}s{1}s..'.format(a, b, ..), ..) (a sa.sval CallRec) when the key size of the
-    negotiated cipher / integrity / prf object is env['encr'] / env['integ'] / env['prf'] and the SA is ESP"""
-    f = unpack_call.args.get('#0')
-    if f is None or not (tq.is_call(f, 'method.format') and f[2][0] == 'const' and isinstance(f[2][2], str)):
-        return None
-    text = f[2][2]
-    fields = re.findall(r'\{(\d*)\}s', text[1:])
-    if not text.startswith('>') or ''.join('{%s}s' % x for x in fields) != text[1:]:
-        return None
-
+def _size_leaf(env):
     def leaf(t):
         if t[0] == 'attr' and t[2] == 'key_size' and tq.is_call(t[1]):
             kind = {'new crypto.Cipher': 'encr', 'new crypto.Integrity': 'integ', 'new crypto.Prf': 'prf'}.get(t[1][1])
@@ -166,6 +156,20 @@ def fmt_sizes(ctx, fi, unpack_call, env):
         if t[0] == 'global' and t[1].endswith('Protocol.ESP'):
             return 'ESP'
         raise tq.NoValue()
+    return leaf
+
+
+def fmt_sizes(ctx, fi, unpack_call, env):
+    """field sizes of struct.unpack('>{0}s{1}s..'.format(a, b, ..), ..) (a sa.sval CallRec) when the key size of the
+    negotiated cipher / integrity / prf object is env['encr'] / env['integ'] / env['prf'] and the SA is ESP"""
+    f = unpack_call.args.get('#0')
+    if f is None or not (tq.is_call(f, 'method.format') and f[2][0] == 'const' and isinstance(f[2][2], str)):
+        return None
+    text = f[2][2]
+    fields = re.findall(r'\{(\d*)\}s', text[1:])
+    if not text.startswith('>') or ''.join('{%s}s' % x for x in fields) != text[1:]:
+        return None
+    leaf = _size_leaf(env)
     try:
         args = [tq.teval(v, leaf) for k, v in f[3]]
     except tq.NoValue:
@@ -174,6 +178,49 @@ def fmt_sizes(ctx, fi, unpack_call, env):
         return [args[int(x) if x else i] for i, x in enumerate(fields)]
     except IndexError:
         return None
+
+
+class Split(object):
+    """The consecutive pieces one octet string is cut into, however the code cuts it: struct.unpack('>{0}s{1}s..'.format(..), src)
+    whose results are the pieces, or slices src[0:a], src[a:a+b], ...  `terms` are the pieces in the order claimed."""
+
+    def __init__(self, V, terms):
+        self.kind = self.src = self.up = None
+        self.terms = list(terms)
+        self.holder = ('tuple', tuple(self.terms))
+        if not terms or any(t is None for t in terms):
+            return
+        first = terms[0]
+        if first[0] == 'index' and tq.is_call(first[1], 'struct.unpack'):
+            U = first[1]
+            ups = [c for c in V.calls if c.term == U]
+            if ups and all(t == ('index', U, const(i)) for i, t in enumerate(terms)):
+                self.kind, self.up, self.src = 'unpack', ups[0], ups[0].args.get('#1', NONE)
+                self.holder = U
+        elif first[0] == 'slice':
+            if all(t[0] == 'slice' and t[1] == first[1] and t[4] in (NONE, const(1)) and t[3] != NONE for t in terms):
+                self.kind, self.src = 'slice', first[1]
+
+    def sizes(self, ctx, fi, env):
+        """the widths of the pieces under env, or None when the pieces are not consecutive from offset 0"""
+        if self.kind == 'unpack':
+            got = fmt_sizes(ctx, fi, self.up, env)
+            return got if got is not None and len(got) == len(self.terms) else None
+        if self.kind != 'slice':
+            return None
+        leaf = _size_leaf(env)
+        out, at = [], 0
+        try:
+            for t in self.terms:
+                lo = 0 if t[2] == NONE else tq.teval(t[2], leaf)
+                hi = tq.teval(t[3], leaf)
+                if not isinstance(lo, int) or not isinstance(hi, int) or lo != at or hi < lo:
+                    return None
+                out.append(hi - lo)
+                at = hi
+        except tq.NoValue:
+            return None
+        return out
 
 
 def run(ctx):
@@ -213,17 +260,16 @@ def run(ctx):
     site = ctx.site(gk, gk.node)
     kr = V.ret()
     a = tq.args(kr) if tq.is_call(kr, 'namedtuple.Keyring') else {}
-    first = a.get(RFC_ORDER[0])
-    U = first[1] if first is not None and first[0] == 'index' and tq.is_call(first[1], 'struct.unpack') else None
-    ctx.check(U is not None and all(a.get(n) == ('index', U, const(i)) for i, n in enumerate(RFC_ORDER)), 'K3',
+    sp = Split(V, [a.get(n) for n in RFC_ORDER])
+    ctx.check(sp.kind is not None, 'K3',
               'the Keyring is filled with the split results in RFC order SK_d|SK_ai|SK_ar|SK_ei|SK_er|SK_pi|SK_pr', key=('K3', 'keyring-fill'),
               site=site, detail={'returned': tq.text(kr, 500)})
     kf = namedtuple_fields(prog, 'ikesa', 'Keyring')
     ctx.check(kf == RFC_ORDER, 'K3', 'Keyring fields are declared in RFC order', key=('K3', 'keyring-fields'), detail={'found': kf})
-    if U is None:
+    if sp.kind is None:
         return
-    up = [c for c in V.calls if c.term == U][0]
-    km = up.args.get('#1', NONE)
+    U = sp.holder
+    km = sp.src
     PRF = V.expr('Prf(ike_proposal.get_transform(Transform.Type.PRF))')
     ok = tq.is_call(km, 'crypto.Prf.prfplus') and same(km[2], PRF)
     ctx.check(ok, 'K3', 'the split consumes prf+ output computed with the PRF of the negotiated PRF transform', key=('K3', 'prfplus-call'),
@@ -292,7 +338,7 @@ def run(ctx):
     common.expect_term(ctx, 'K3', V, ka.get(pp.call_params()[1]), 'nonce_i + nonce_r + spi_i + spi_r',
                        'SK_* seed material = prf+(SKEYSEED, Ni | Nr | SPIi | SPIr, ...)', ('K3', 'seed'), site)
     env = {'prf': 5, 'integ': 7, 'encr': 11}
-    sizes = fmt_sizes(ctx, gk, up, env)
+    sizes = sp.sizes(ctx, gk, env)
     total = key_total(ka.get(pp.call_params()[2], NONE), env)
     ctx.check(total == 3 * 5 + 2 * 7 + 2 * 11, 'K3', 'requested length = 3*prf + 2*integ + 2*encr key sizes', key=('K3', 'length'),
               site=site, detail={'found': tq.text(ka.get(pp.call_params()[2], NONE), 300)})
@@ -311,15 +357,13 @@ def run(ctx):
     site = ctx.site(gc, gc.node)
     kr = G.ret()
     a = tq.args(kr) if tq.is_call(kr, 'namedtuple.Keyring') else {}
-    first = a.get('sk_ei')
-    U = first[1] if first is not None and first[0] == 'index' and tq.is_call(first[1], 'struct.unpack') else None
-    ctx.check(U is not None and [a.get(n) for n in RFC_ORDER] == [NONE, ('index', U, const(1)), ('index', U, const(3)), ('index', U, const(0)),
-                                                                   ('index', U, const(2)), NONE, NONE], 'K4',
+    sp = Split(G, [a.get(n) for n in ('sk_ei', 'sk_ai', 'sk_er', 'sk_ar')])
+    U = sp.holder if sp.kind is not None else None
+    ctx.check(U is not None and [a.get(n) for n in ('sk_d', 'sk_pi', 'sk_pr')] == [NONE, NONE, NONE], 'K4',
               'KEYMAT split order SK_ei|SK_ai|SK_er|SK_ar, each stored at the like-named Keyring position', key=('K4', 'keyring-fill'),
               site=site, detail={'returned': tq.text(kr, 500)})
     if U is not None:
-        up = [c for c in G.calls if c.term == U][0]
-        km = up.args.get('#1', NONE)
+        km = sp.src
         ok = tq.is_call(km, 'crypto.Prf.prfplus') and same(km[2], G.expr('self.my_crypto.prf'))
         ka = tq.args(km) if ok else {}
         # what the callee uses as key, seed and proposal - as terms over its parameters; the call sites are judged with their
@@ -329,7 +373,7 @@ def run(ctx):
                   site=site, detail={'split input': tq.text(km, 300)})
         for proto, want in (('ESP', [11, 7, 11, 7]), ('AH', [0, 7, 0, 7])):
             env = {'integ': 7, 'encr': 11, 'proto': proto}
-            sizes = fmt_sizes(ctx, gc, up, env)
+            sizes = sp.sizes(ctx, gc, env)
             total = key_total(ka.get(pp.call_params()[2], NONE), env) if ok else None
             ctx.check(sizes == want and total == sum(want), 'K4', '%s: requested length and split widths are encr|integ|encr|integ%s' % (
                 proto, ' with no encryption key' if proto == 'AH' else ''), key=('K4', 'split-order', proto), site=site,
